@@ -333,3 +333,30 @@ Definition bibtex_abbreviate (s : str) (delimiter : option str) : res str :=
   do letters <- map_res bibtex_first_letter toks;
   let d := match delimiter with None => [46%N; c_hyphen] | Some d => d end in
   Ok (join d (filter (fun l => negb (match l with [] => true | _ => false end)) letters)).
+
+(* ---- the same functions as the BST interpreter reaches them (pybtex/bibtex/builtins.py):
+   each builtin pops its operands (last pushed first) and pushes the util's result ---- *)
+(* builtins.py:259-264 substring$ : pops length, start, string *)
+Definition bst_substring (s : str) (start len : Z) : res str := Ok (bibtex_substring s start len).
+(* builtins.py:283-287 text.prefix$ : pops l, s *)
+Definition bst_text_prefix (s : str) (l : Z) : res str := bibtex_prefix s l.
+(* builtins.py:278-281 text.length$ *)
+Definition bst_text_length (s : str) : res nat := bibtex_len s.
+(* builtins.py:246-249 purify$ *)
+Definition bst_purify (s : str) : res str := bibtex_purify s.
+(* builtins.py:133-145 change.case$ : pops mode, string; empty mode and a first letter
+   other than l/u/t (case-insensitive) are BibTeX errors *)
+Definition bst_change_case (s mode : str) : res str :=
+  match mode with
+  | [] => PyErr E_BIBTEX (-1)
+  | c :: _ =>
+    let m := to_lower c in
+    if N.eqb m 108 then change_case s 0
+    else if N.eqb m 117 then change_case s 1
+    else if N.eqb m 116 then change_case s 2
+    else PyErr E_BIBTEX (-1)
+  end.
+(* builtins.py:312-315 width$ *)
+Definition bst_width (cw : char -> Z) (s : str) : res Z := bibtex_width cw s.
+(* builtins.py:233-236 num.names$ *)
+Definition bst_num_names (s : str) : res nat := do l <- split_name_list s; Ok (length l).
